@@ -107,7 +107,7 @@ def main(tier, replay=None):
     exe2 = build("h_l2")
     import c10, c07
     l2 = [("Counter", c10.CONFIGS["q"][:3], lambda c: dict(V0=c.get("V0", 0), MaxNow=c.get("MaxNow", 0))),
-          ("Once", c07.CONFIGS["q"][:5], lambda c: dict(MaxNow=c.get("MaxNow", 0))),
+          ("Once", c07.CONFIGS["q"][:5], lambda c: dict(MaxNow=c.get("MaxNow", 0), Nest=c.get("Nest", 0))),
           ("Note", [(n, dict(notelib.note_conf(notelib.CONF[n][2]), _c=notelib.CONF[n][2])) for n in ("n_chain", "n_sibling", "s_child", "x_hb")], lambda conf: notelib.consts_of(conf["_c"]))]
     for spec, cfgs, cf_ in l2:
         res2 = l2lib.run_family(run, exe2, spec, "C03", cfgs, cf_, set(), {"O-hb"}, env={"VERIF_HB": "1", "VERIF_HBDATA": "1"})
